@@ -1,5 +1,5 @@
 CONSTANTS MaxNodes = 3
- Offs = {0, 1, 2, 4}
+ Offs = {0, 1, 3}
  Sizes = {0, 4}
  Aligns = {1, 2}
  BinLens = {0, 1, 3}
